@@ -158,6 +158,8 @@ func caseC06(c *Ctx) {
 	}
 	restricted := c.Chance(1, 3)
 	dotdot := c.Chance(1, 8)
+	tname := genTargetDirName(c)
+	c.Scenario["target_directory_name"] = tname
 	doc, _ := spell(c, forest, sp)
 	nNodes := 0
 	for _, r := range forest {
@@ -180,7 +182,7 @@ func caseC06(c *Ctx) {
 	prepare := func() *DiskPlan {
 		j := newJail()
 		jails = append(jails, j)
-		target := filepath.Join(j, "target")
+		target := filepath.Join(j, tname)
 		switch st.kind {
 		case "missing":
 			target = filepath.Join(j, "not", "yet", "there")
@@ -192,7 +194,7 @@ func caseC06(c *Ctx) {
 			if dotdot {
 				// the same directory, written with a ".." element
 				os.MkdirAll(filepath.Join(j, "side"), 0o755)
-				target = j + "/side/../target"
+				target = j + "/side/../" + tname
 			}
 			os.WriteFile(filepath.Join(target, "zz-bystander.txt"), []byte("keep"), 0o644)
 			os.MkdirAll(filepath.Join(target, "zz-bystander-dir", "x"), 0o755)
@@ -515,9 +517,10 @@ func caseC08(c *Ctx) {
 	exts := extSets[c.Draw(len(extSets))]
 	j := newJail()
 	defer removeJail(j)
-	target := filepath.Join(j, "target")
+	tname := genTargetDirName(c)
+	target := filepath.Join(j, tname)
 	if c.Chance(1, 5) {
-		target = filepath.Join(j, "deep", "er", "target")
+		target = filepath.Join(j, "deep", "er", tname)
 	}
 	hist := []string{}
 	nontrivial := false
@@ -678,7 +681,17 @@ func caseC08(c *Ctx) {
 		d.FailAt, d.Errno, d.Sticky, d.OnlyRead = c.Draw(6), []syscall.Errno{syscall.EACCES, syscall.EIO}[c.Draw(2)], c.Draw(2) == 1, true
 		c.Scenario["verify_read_fault"] = fmt.Sprintf("%v at op #%d sticky=%v", d.Errno, d.FailAt, d.Sticky)
 	}
-	env := &Env{Doc: canonicalDoc(vforest), Reader: noReaderFault, Writer: noWriterFault, Cb: noCbFault, Disk: d}
+	vdoc := canonicalDoc(vforest)
+	if !op.FromRoot && c.Chance(1, 3) {
+		// the same forest in another notation (indentation unit, bullets, CRLF, blank lines)
+		sp := genSpelling(c, false)
+		vdoc, _ = spell(c, vforest, sp)
+		c.Scenario["doc"] = string(vdoc)
+		c.st.Count("verify-doc-in-another-notation")
+	}
+	vrp := noReaderFault
+	vrp.WithLen, vrp.Seekable = c.Chance(1, 6), c.Chance(1, 6)
+	env := &Env{Doc: vdoc, Reader: vrp, Writer: noWriterFault, Cb: noCbFault, Disk: d}
 	if op.FromRoot {
 		env.Tree = vforest[0]
 	}
